@@ -83,8 +83,8 @@ def pristine(step):
 
 # ------------------------------------------------------------------ generation
 
-def _cfg(params=False, tdm=False):
-    return S.Cfg(max_items=6, depth=1, params=params, tdm=tdm, ascii_only=True, names=POOL, sym_vars=not tdm, options=True)
+def _cfg(params=False, tdm=False, regs=False):
+    return S.Cfg(max_items=6, depth=1, params=params, tdm=tdm, regs=regs, ascii_only=True, names=POOL, sym_vars=not tdm, options=True)
 
 
 @st.composite
@@ -157,9 +157,19 @@ def file_step(draw):
 
 @st.composite
 def step(draw):
-    k = draw(st.sampled_from(["valid", "valid", "template", "failing", "failing", "failing", "probe", "probe", "probe", "files", "files", "files", "mutate"]))
+    k = draw(st.sampled_from(["valid", "valid", "registers", "registers", "template", "failing", "failing", "failing", "probe", "probe", "probe", "files", "files", "files", "mutate", "mutate"]))
     if k == "valid":
+        c = draw(st.integers(0, 4))
+        if c == 0:
+            return {"kind": "loads", "text": render.render(draw(S.script(_cfg(tdm=True)))), "role": "valid-tdm"}
+        if c == 1:
+            return {"kind": "loads", "text": render.render(draw(S.script(_cfg(regs=True)))), "role": "valid-registers"}
         return {"kind": "loads", "text": render.render(draw(S.script(_cfg()))), "role": k}
+    if k == "registers":
+        # the same few register expressions recur across loads (a cache of transforms would be shared)
+        args = draw(st.lists(st.sampled_from(["2*q0", "q0+q1", "-q0"]), min_size=1, max_size=2))
+        body = "".join("G(%s) | %d\n" % (a, i) for i, a in enumerate(args))
+        return {"kind": "loads", "text": "name regs\nversion 1.0\n" + body, "role": "valid-registers"}
     if k == "template":
         return {"kind": "loads", "text": render.render(draw(S.script(_cfg(params=True)))), "role": k}
     if k == "failing":
@@ -170,12 +180,23 @@ def step(draw):
         s = draw(file_step())
         s["role"] = k
         return s
-    return {"kind": "mutate", "target": draw(st.integers(0, 5)), "how": draw(st.integers(0, 8)), "role": k}
+    return {"kind": "mutate", "target": draw(st.integers(0, 5)), "how": draw(st.sampled_from(list(range(9)) + [9, 10] * 3)), "role": k}
+
+
+@st.composite
+def group(draw):
+    """One step, or the scenario 'load S; modify the program it returned; load S again'."""
+    s1 = draw(step())
+    if s1["kind"] != "mutate" and draw(st.integers(0, 3)) == 0:
+        mut = {"kind": "mutate", "target": -1, "how": draw(st.sampled_from(list(range(9)) + [9, 10] * 3)), "role": "mutate"}
+        return [s1, mut, dict(s1)]
+    return [s1]
 
 
 @st.composite
 def case(draw, tier):
-    return {"steps": draw(st.lists(step(), min_size=2, max_size=30 if tier != "quick" else 12))}
+    groups = draw(st.lists(group(), min_size=2, max_size=20 if tier != "quick" else 8))
+    return {"steps": [s for g in groups for s in g][:40 if tier != "quick" else 16]}
 
 
 def strategy(tier):
